@@ -13,6 +13,10 @@ pub fn call<R>(f: impl FnOnce() -> R) -> Result<R, String> {
 pub fn install_quiet_panic_hook() {
     let default = std::panic::take_hook();
     std::panic::set_hook(Box::new(move |info| {
+        if std::env::var_os("VERIF_LOUD_PANICS").is_some() {
+            eprintln!("PANIC: {info}\n{}", std::backtrace::Backtrace::force_capture());
+            return;
+        }
         if verif_simrt::sched::in_world() || std::env::var_os("VERIF_QUIET_PANICS").is_some() {
             return;
         }
